@@ -87,6 +87,14 @@ CHECKS = {
          "256 in thorough; word tags: n, n+1, 255, 256, 2^32, 2^63, 2^64-1) and TLC checks TagRule (InvalidTag carrying exactly "
          "that value in both modes); each is replayed on the real stream. The round trip of every variant is C01/C02's replay.",
          "6 C15"),
+ "C19": ("model checking + conformance replay + trace validation",
+         "Cursor.tla is the reference semantics (std::io::Cursor<Vec<u8>>); TLC enumerates every history to depth 4/5 over an "
+         "alphabet of writes (incl. empty), reads, seeks (start/current/end, negative, past the end) and set_position, each "
+         "replayed on AlignedCursor<A16>, AlignedCursor<A64> and std's cursor with result, contents, length, position and "
+         "storage alignment compared after every step; seeded random histories (400-1500 operations) recorded from the real "
+         "cursor are validated by TLC against Trace_Cursor.tla (every event = the specification's action with the same "
+         "observations); 64-bit overflow arms are compared with std directly.",
+         "6 C19"),
 }
 
 
